@@ -1,6 +1,7 @@
 package batch
 
 import (
+	"errors"
 	"fmt"
 	"slices"
 	"strconv"
@@ -383,6 +384,10 @@ func (c *converter) ForEnd() error {
 }
 
 func (c *converter) Break() error {
+	// A break within a switch which is not part of a loop is not supported yet.
+	if len(c.endLabels) == 0 {
+		return errors.New("break outside of a loop is not supported")
+	}
 	c.addLine(fmt.Sprintf("goto %s", c.mustCurrentEndLabel()))
 	return nil
 }
